@@ -522,12 +522,20 @@ func (h *harness) dump(b *base, specs []nodeSpec) (map[string]nodeState, string)
 		var rs, fs []string
 		for _, k := range b.rkeys {
 			if v, ok := st.recs[k]; ok {
-				rs = append(rs, k+"="+digest(recSymbols(v)))
+				if bytes.Equal(v, b.orig.recs[k]) {
+					rs = append(rs, k+"=orig")
+				} else {
+					rs = append(rs, k+"="+digest(recSymbols(v)))
+				}
 			}
 		}
 		for _, k := range b.fkeys {
 			if v, ok := st.files[k]; ok {
-				fs = append(fs, k+"="+digest(fileSymbols(v)))
+				if bytes.Equal(v, b.orig.files[k]) {
+					fs = append(fs, k+"=orig")
+				} else {
+					fs = append(fs, k+"="+digest(fileSymbols(v)))
+				}
 			}
 		}
 		// anything the scenario does not know about is reported too
@@ -1285,6 +1293,24 @@ func (h *harness) handMade(nSeq int) {
 	h.emit("dump", "dump", "hm[r  | f "+strings.Join(fs, " ")+"]", true)
 }
 
+// seededReader makes uuid.New() (point ids, shard ids created by RPCCreateShard) a function of the seed.
+type seededReader struct {
+	mu sync.Mutex
+	r  *vh.Rng
+}
+
+func (s *seededReader) Read(p []byte) (int, error) {
+	s.mu.Lock()
+	defer s.mu.Unlock()
+	for i := 0; i < len(p); i += 8 {
+		x := s.r.U64()
+		for t := 0; t < 8 && i+t < len(p); t++ {
+			p[i+t] = byte(x >> (8 * t))
+		}
+	}
+	return len(p), nil
+}
+
 // ------------------------------------------------------------------------------------ main
 
 func main() {
@@ -1375,6 +1401,7 @@ func (h *harness) runAll(extra map[string]any, only int) {
 			continue
 		}
 		h.rng = vh.NewRng(h.seed*7919 + uint64(sc)*104729 + 1)
+		uuid.SetRand(&seededReader{r: vh.NewRng(h.seed*15485863 + uint64(sc)*32452843 + 5)})
 		b, err := h.buildBase(sc, p.tr, p.users, p.cols, p.pts, p.bigPad, p.synth)
 		if err != nil {
 			panic(fmt.Errorf("scenario %d (%s): %w", sc, p.tr.kind, err))
